@@ -40,6 +40,8 @@ def TARGET_FILES(cls):
 
 def gen_target(rng):
     r = rng.random()
+    if r < 0.05:
+        return RL.gen_terminal_rule(rng, cache=True)
     if r < 0.45:
         return RL.gen_rule(rng, cache=True)
     if r < 0.60:
